@@ -45,8 +45,9 @@ pub const TEMPLATES: [&str; 21] = [
     "permutation_rw", "real_iwo", "real_fa", "real_bh", "real_cro", "ant_system", "max_min_ant_system",
 ];
 
-/// Number of parameter points per template.
-pub const N_VARIANTS: u32 = 3;
+/// Number of parameter points per template (0..2: ordinary values; 3: degenerate but valid values:
+/// zero offspring, a single individual/particle/ant, rates 0, factors 1, ...).
+pub const N_VARIANTS: u32 = 4;
 /// Number of problem instances per problem kind.
 pub const N_INSTANCES: u32 = 4;
 
@@ -89,15 +90,15 @@ pub fn describe(name: &str, variant: u32) -> String {
 pub fn prescribed_size(name: &str, variant: u32) -> (usize, usize) {
     let v = variant % N_VARIANTS;
     match name {
-        "real_ga" | "binary_ga" => { let n = [6, 10, 4][v as usize]; (n, n) }
-        "real_es" => { let n = [3, 5, 1][v as usize]; (n, n) }
-        "real_de" => { let n = [6, 8, 10][v as usize]; (n, n) }
-        "real_pso" => { let n = [4, 1, 7][v as usize]; (n, n) }
-        "real_iwo" => { let (i, m) = [(3, 6), (2, 5), (4, 4)][v as usize]; (i.min(m), m) }
-        "real_fa" => { let n = [4, 6, 3][v as usize]; (n, n) }
-        "real_bh" => { let n = [4, 6, 2][v as usize]; (n, n) }
+        "real_ga" | "binary_ga" => { let n = [6, 10, 4, 2][v as usize]; (n, n) }
+        "real_es" => { let n = [3, 5, 1, 2][v as usize]; (n, n) }
+        "real_de" => { let n = [6, 8, 10, 4][v as usize]; (n, n) }
+        "real_pso" => { let n = [4, 1, 7, 2][v as usize]; (n, n) }
+        "real_iwo" => { let (i, m) = [(3, 6), (2, 5), (4, 4), (1, 1)][v as usize]; (i.min(m), m) }
+        "real_fa" => { let n = [4, 6, 3, 1][v as usize]; (n, n) }
+        "real_bh" => { let n = [4, 6, 2, 1][v as usize]; (n, n) }
         "real_cro" => (1, usize::MAX),
-        "ant_system" | "max_min_ant_system" => { let n = [3, 5, 1][v as usize] + 1; (n, n) }
+        "ant_system" | "max_min_ant_system" => { let n = [3, 5, 1, 1][v as usize] + 1; (n, n) }
         _ => (1, 1),
     }
 }
@@ -122,75 +123,75 @@ pub fn with_template<U: ConfigUser>(name: &str, variant: u32, instance: u32, ite
     match name {
         "real_ga" => go!(sphere_instance(instance), ga::real_ga::<Sphere>(
             ga::RealProblemParameters {
-                population_size: [6, 10, 4][v], tournament_size: [2, 3, 4][v], pm: [1.0, 0.5, 0.1][v],
-                deviation: [0.1, 1.0, 0.01][v], pc: [0.8, 1.0, 0.0][v],
+                population_size: [6, 10, 4, 2][v], tournament_size: [2, 3, 4, 2][v], pm: [1.0, 0.5, 0.1, 0.0][v],
+                deviation: [0.1, 1.0, 0.01, 0.5][v], pc: [0.8, 1.0, 0.0, 0.5][v],
             }, LessThanN::iterations(iters))),
         "binary_ga" => go!(onemax_instance(instance), ga::binary_ga::<OneMax>(
             ga::BinaryProblemParameters {
-                population_size: [6, 10, 4][v], tournament_size: [2, 3, 4][v], rm: [0.1, 0.5, 1.0][v],
-                pc: [0.8, 1.0, 0.0][v], pm: [1.0, 0.5, 0.0][v],
+                population_size: [6, 10, 4, 2][v], tournament_size: [2, 3, 4, 1][v], rm: [0.1, 0.5, 1.0, 0.0][v],
+                pc: [0.8, 1.0, 0.0, 0.5][v], pm: [1.0, 0.5, 0.0, 1.0][v],
             }, LessThanN::iterations(iters))),
         "real_es" => go!(sphere_instance(instance), es::real_mu_plus_lambda_es::<Sphere, ()>(
-            es::RealProblemParameters { population_size: [3, 5, 1][v], lambda: [6, 5, 1][v], deviation: [0.1, 1.0, 0.01][v] },
+            es::RealProblemParameters { population_size: [3, 5, 1, 2][v], lambda: [6, 5, 1, 0][v], deviation: [0.1, 1.0, 0.01, 0.1][v] },
             LessThanN::iterations(iters))),
         "real_de" => go!(sphere_instance(instance), de::real_de::<Sphere>(
-            de::RealProblemParameters { population_size: [6, 8, 10][v], y: [1, 1, 2][v], f: [0.5, 1.0, 0.2][v], pc: [0.9, 0.5, 0.1][v] },
+            de::RealProblemParameters { population_size: [6, 8, 10, 4][v], y: [1, 1, 2, 1][v], f: [0.5, 1.0, 0.2, 0.0][v], pc: [0.9, 0.5, 0.1, 1.0][v] },
             LessThanN::iterations(iters))),
         "real_pso" => go!(sphere_instance(instance), pso::real_pso::<Sphere>(
             pso::RealProblemParameters {
-                num_particles: [4, 1, 7][v], start_weight: [0.9, 0.5, 0.0][v], end_weight: [0.4, 0.5, 1.0][v],
-                c_one: [1.7, 0.0, 2.0][v], c_two: [1.7, 2.0, 0.0][v], v_max: [1.0, 0.001, 10.0][v],
+                num_particles: [4, 1, 7, 2][v], start_weight: [0.9, 0.5, 0.0, 1.0][v], end_weight: [0.4, 0.5, 1.0, 1.0][v],
+                c_one: [1.7, 0.0, 2.0, 0.0][v], c_two: [1.7, 2.0, 0.0, 0.0][v], v_max: [1.0, 0.001, 10.0, 0.5][v],
             }, LessThanN::iterations(iters))),
         "real_sa" => go!(sphere_instance(instance), sa::real_sa::<Sphere>(
-            sa::RealProblemParameters { t_0: [1.0, 100.0, 1e-3][v], alpha: [0.9, 0.99, 0.5][v], deviation: [0.1, 1.0, 0.01][v] },
+            sa::RealProblemParameters { t_0: [1.0, 100.0, 1e-3, 1e6][v], alpha: [0.9, 0.99, 0.5, 0.0][v], deviation: [0.1, 1.0, 0.01, 1e-6][v] },
             LessThanN::iterations(iters))),
         "permutation_sa" => go!(tsp_instance(instance), sa::permutation_sa::<Tsp>(
-            sa::PermutationProblemParameters { t_0: [1.0, 100.0, 1e-3][v], alpha: [0.9, 0.99, 0.5][v], num_swap: [2, 3, 4][v] },
+            sa::PermutationProblemParameters { t_0: [1.0, 100.0, 1e-3, 1e6][v], alpha: [0.9, 0.99, 0.5, 0.0][v], num_swap: [2, 3, 4, 5][v] },
             LessThanN::iterations(iters))),
         "real_ls" => go!(sphere_instance(instance), ls::real_ls::<Sphere>(
-            ls::RealProblemParameters { n_neighbors: [3, 1, 6][v], deviation: [0.1, 1.0, 0.01][v] },
+            ls::RealProblemParameters { n_neighbors: [3, 1, 6, 0][v], deviation: [0.1, 1.0, 0.01, 0.1][v] },
             LessThanN::iterations(iters))),
         "permutation_ls" => go!(tsp_instance(instance), ls::permutation_ls::<Tsp>(
-            ls::PermutationProblemParameters { num_neighbors: [3, 1, 6][v], num_swap: [2, 3, 4][v] },
+            ls::PermutationProblemParameters { num_neighbors: [3, 1, 6, 0][v], num_swap: [2, 3, 4, 2][v] },
             LessThanN::iterations(iters))),
         "real_ils" => go!(sphere_instance(instance), ils::real_ils::<Sphere>(
             ils::RealProblemParameters {
-                ls_params: ls::RealProblemParameters { n_neighbors: [3, 1, 6][v], deviation: [0.1, 1.0, 0.01][v] },
-                ls_condition: LessThanN::iterations([2, 3, 1][v]),
+                ls_params: ls::RealProblemParameters { n_neighbors: [3, 1, 6, 0][v], deviation: [0.1, 1.0, 0.01, 0.1][v] },
+                ls_condition: LessThanN::iterations([2, 3, 1, 0][v]),
             }, LessThanN::iterations(iters))),
         "permutation_ils" => go!(tsp_instance(instance), ils::permutation_ils::<Tsp>(
             ils::PermutationProblemParameters {
-                ls_params: ls::PermutationProblemParameters { num_neighbors: [3, 1, 6][v], num_swap: [2, 3, 4][v] },
-                ls_condition: LessThanN::iterations([2, 3, 1][v]),
+                ls_params: ls::PermutationProblemParameters { num_neighbors: [3, 1, 6, 0][v], num_swap: [2, 3, 4, 2][v] },
+                ls_condition: LessThanN::iterations([2, 3, 1, 0][v]),
             }, LessThanN::iterations(iters))),
         "real_rs" => go!(sphere_instance(instance), rs::real_rs::<Sphere>(LessThanN::iterations(iters))),
         "permutation_rs" => go!(tsp_instance(instance), rs::permutation_rs::<Tsp>(LessThanN::iterations(iters))),
         "real_rw" => go!(sphere_instance(instance), rw::real_rw::<Sphere>(
-            rw::RealProblemParameters { deviation: [0.1, 1.0, 0.01][v] }, LessThanN::iterations(iters))),
+            rw::RealProblemParameters { deviation: [0.1, 1.0, 0.01, 1e-9][v] }, LessThanN::iterations(iters))),
         "permutation_rw" => go!(tsp_instance(instance), rw::permutation_random_walk::<Tsp>(
-            rw::PermutationProblemParameters { num_swap: [2, 3, 4][v] }, LessThanN::iterations(iters))),
+            rw::PermutationProblemParameters { num_swap: [2, 3, 4, 5][v] }, LessThanN::iterations(iters))),
         "real_iwo" => go!(sphere_instance(instance), iwo::real_iwo::<Sphere>(
             iwo::RealProblemParameters {
-                initial_population_size: [3, 2, 4][v], max_population_size: [6, 5, 4][v],
-                min_number_of_seeds: [0, 1, 2][v], max_number_of_seeds: [3, 1, 5][v],
-                initial_deviation: [0.01, 0.1, 0.5][v], final_deviation: [0.5, 1.0, 0.6][v], modulation_index: [3, 1, 2][v],
+                initial_population_size: [3, 2, 4, 1][v], max_population_size: [6, 5, 4, 1][v],
+                min_number_of_seeds: [0, 1, 2, 0][v], max_number_of_seeds: [3, 1, 5, 1][v],
+                initial_deviation: [0.01, 0.1, 0.5, 0.1][v], final_deviation: [0.5, 1.0, 0.6, 0.2][v], modulation_index: [3, 1, 2, 1][v],
             }, LessThanN::iterations(iters))),
         "real_fa" => go!(sphere_instance(instance), fa::real_fa::<Sphere>(
-            fa::RealProblemParameters { pop_size: [4, 6, 3][v], alpha: [0.25, 0.5, 0.0][v], beta: [1.0, 0.5, 0.2][v], gamma: [0.01, 1.0, 0.1][v], delta: [0.97, 0.9, 1.0][v] },
+            fa::RealProblemParameters { pop_size: [4, 6, 3, 1][v], alpha: [0.25, 0.5, 0.0, 0.0][v], beta: [1.0, 0.5, 0.2, 0.0][v], gamma: [0.01, 1.0, 0.1, 0.0][v], delta: [0.97, 0.9, 1.0, 0.5][v] },
             LessThanN::iterations(iters))),
         "real_bh" => go!(sphere_instance(instance), bh::real_bh::<Sphere>(
-            bh::RealProblemParameters { num_particles: [4, 6, 2][v] }, LessThanN::iterations(iters))),
+            bh::RealProblemParameters { num_particles: [4, 6, 2, 1][v] }, LessThanN::iterations(iters))),
         "real_cro" => go!(sphere_instance(instance), cro::real_cro::<Sphere>(
             cro::RealProblemParameters {
-                initial_population_size: [4, 6, 3][v], mole_coll: [0.2, 0.5, 0.8][v], kinetic_energy_lr: [0.2, 0.5, 0.9][v],
-                alpha: [5, 2, 50][v], beta: [0.1, 10.0, 1.0][v], initial_kinetic_energy: [10.0, 100.0, 1.0][v],
-                buffer: [0.0, 10.0, 1.0][v], on_wall_deviation: [0.1, 0.5, 0.01][v], decomposition_deviation: [0.1, 0.5, 1.0][v],
+                initial_population_size: [4, 6, 3, 2][v], mole_coll: [0.2, 0.5, 0.8, 0.0][v], kinetic_energy_lr: [0.2, 0.5, 0.9, 0.0][v],
+                alpha: [5, 2, 50, 0][v], beta: [0.1, 10.0, 1.0, 0.0][v], initial_kinetic_energy: [10.0, 100.0, 1.0, 0.0][v],
+                buffer: [0.0, 10.0, 1.0, 0.0][v], on_wall_deviation: [0.1, 0.5, 0.01, 0.1][v], decomposition_deviation: [0.1, 0.5, 1.0, 0.1][v],
             }, LessThanN::iterations(iters))),
         "ant_system" => go!(tsp_instance(instance), aco::ant_system::<Tsp>(
-            aco::ASParameters::verif_new([3, 5, 1][v], [1.0, 0.0, 5.0][v], [1.0, 5.0, 0.0][v], [1.0, 0.5, 2.0][v], [0.1, 0.9, 0.5][v], [1.0, 10.0, 0.1][v]),
+            aco::ASParameters::verif_new([3, 5, 1, 1][v], [1.0, 0.0, 5.0, 0.0][v], [1.0, 5.0, 0.0, 0.0][v], [1.0, 0.5, 2.0, 1.0][v], [0.1, 0.9, 0.5, 0.0][v], [1.0, 10.0, 0.1, 1.0][v]),
             LessThanN::iterations(iters))),
         "max_min_ant_system" => go!(tsp_instance(instance), aco::max_min_ant_system::<Tsp>(
-            aco::MMASParameters::verif_new([3, 5, 1][v], [1.0, 0.0, 5.0][v], [1.0, 5.0, 0.0][v], [1.0, 0.5, 2.0][v], [0.1, 0.9, 0.5][v], [2.0, 5.0, 3.0][v], [0.5, 0.1, 1.0][v]),
+            aco::MMASParameters::verif_new([3, 5, 1, 1][v], [1.0, 0.0, 5.0, 0.0][v], [1.0, 5.0, 0.0, 0.0][v], [1.0, 0.5, 2.0, 1.0][v], [0.1, 0.9, 0.5, 1.0][v], [2.0, 5.0, 3.0, 1.0][v], [0.5, 0.1, 1.0, 0.5][v]),
             LessThanN::iterations(iters))),
         other => Err(format!("unknown template {other}")),
     }
